@@ -1017,6 +1017,6 @@ func main() {
 		"each api/... case = ONE *TPM (new, zero value &TPM{}, or one object reused by all such cases) driven through 2..24 operations of the API level: TPMExecute of single commands (directly or through the wrappers) and of Commands slices " +
 		"(0..5 sub-commands, nested ones, a sub-command that cannot be executed at the first/middle/last position), each with or without a cause provider, direct Apply, PCRValues.Set (value length = hash size, -1, +1, 0, x2; missing pcr/bank), " +
 		"Reset followed by TPMExecute(log.Commands()), the log executed again on the object itself, resets; after every fifth operation and the last one CommandLog.Commands().Apply(ctx, NewTPM()) is observed as well; " +
-		"outcome:* / extend:* / startup:* / eventlogadd:* / api:* in the distribution count commands and operations by result (error kinds by the statement that produced the message) and by argument class; " +
+		"outcome:* / extend:* / startup:* / eventlogadd:* / api:* in the distribution count commands and operations by result (a refused command by the reference TPM's reason: already started / not a hash algorithm / no such PCR / no such bank / bank value length -- computed from the reference state and the arguments, the text of an error is never looked at) and by argument class; " +
 		"a case is non-trivial when at least one extend succeeds; distinct = distinct Gallina literal")
 }
